@@ -92,7 +92,7 @@ func init() {
 	Theory["p256c"] = TheoryFn{SMT: "p256c", Ret: "Iface"}
 	Theory["s256c"] = TheoryFn{SMT: "s256c", Ret: "Iface"}
 	Theory["s256p"] = TheoryFn{SMT: "s256p", Ret: "Ptr"}
-	for _, f := range []string{"curveN", "curveP", "curveBits", "bitlen", "pubX", "pubY", "hkdfSha256", "hkdfNat", "decompY"} {
+	for _, f := range []string{"curveN", "curveP", "curveBits", "bitlen", "pubX", "pubY", "hkdfSha256", "hkdfNat", "decompY", "seqcat", "seqEmpty", "hashOf"} {
 		Theory[f] = TheoryFn{SMT: f, Ret: "Int", RetT: typInt}
 	}
 	for _, f := range []string{"ecdsaEq", "ecdsaSigOf", "onCurve", "compressedOK"} {
@@ -393,6 +393,10 @@ func ecdsaTheory(hs string) string {
 	// curve with reduced coordinates is what decompressing its own compressed form gives back (assumed: at most one y of
 	// each parity below p satisfies the curve equation for a given x).
 	b.WriteString("(declare-fun decompY (Iface Int Int) Int)\n")
+	// streaming hashers of the standard library: seqcat names the concatenation of two named byte strings (the empty string
+	// is a left unit), hashOf(kind, m) the digest of message m under hash function `kind` (256: SHA-256, 384: SHA-384)
+	b.WriteString("(declare-fun seqcat (Int Int) Int)\n(declare-fun seqEmpty () Int)\n(declare-fun hashOf (Int Int) Int)\n")
+	b.WriteString("(assert (forall ((x Int)) (! (= (seqcat seqEmpty x) x) :pattern ((seqcat seqEmpty x)))))\n")
 	b.WriteString("(assert (forall ((c Iface) (x Int) (y Int)) (! (=> (and (onCurve c x y) (<= 0 y) (< y (curveP c))) (and (compressedOK c (+ 2 (mod y 2)) x) (= (decompY c (+ 2 (mod y 2)) x) y))) :pattern ((onCurve c x y)))))\n")
 	// the public point of a scalar in [1, n-1] is a point of the curve with coordinates below p
 	b.WriteString("(assert (forall ((c Iface) (d Int)) (! (=> (and (<= 1 d) (< d (curveN c))) (and (onCurve c (pubX c d) (pubY c d)) (<= 0 (pubX c d)) (< (pubX c d) (curveP c)) (<= 0 (pubY c d)) (< (pubY c d) (curveP c)))) :pattern ((pubX c d)))))\n")
